@@ -122,7 +122,9 @@ TNext ==
                   c05 == C05Fail(H, ev)
               IN IF M = {}
                  THEN /\ Verdict([tid |-> Traces[tid].tid, res |-> "fail", step |-> l,
-                                  props |-> FailedProps(Cands, ev) \cup c05])
+                                  props |-> FailedProps(Cands, ev) \cup c05,
+                                  expected |-> LET c0 == CHOOSE x \in Cands : TRUE IN [emit |-> c0.emit, closed |-> c0.closed],
+                                  ncands |-> Cardinality(Cands)])
                       /\ st' = "done" /\ UNCHANGED <<l, H>>
                  ELSE IF c05 # {}
                  THEN /\ Verdict([tid |-> Traces[tid].tid, res |-> "fail", step |-> l, props |-> c05])
